@@ -387,5 +387,61 @@ theorem cubicComplex_roots (F : CubicFns α) (r s t : α) (w : α)
   · have := depressed r s t (2 * a); rw [← hpdef, ← hqdef] at this; linear_combination this + root0
   · have := depressed r s t (-a - b * F.sqrt3); rw [← hpdef, ← hqdef] at this; linear_combination this + root1
   · have := depressed r s t (-a + b * F.sqrt3); rw [← hpdef, ← hqdef] at this; linear_combination this + root2
+
+/-- with the cancellation-free sign choice the cube-root argument never vanishes -/
+theorem cardanoAStable_ne_zero (F : CubicFns α) (r s t : α) (hD : 0 < cubicD r s t)
+    (hs : F.sqrt (cubicD r s t) * F.sqrt (cubicD r s t) = cubicD r s t ∧ 0 ≤ F.sqrt (cubicD r s t)) :
+    cardanoAStable F r s t ≠ 0 := by
+  obtain ⟨hs1, hs2⟩ := hs
+  have hSpos : 0 < F.sqrt (cubicD r s t) := by
+    rcases hs2.lt_or_eq with h1 | h1
+    · exact h1
+    · rw [← h1] at hs1; linarith
+  unfold cardanoAStable
+  split_ifs with hq
+  · intro h; linarith
+  · have hq' : cubicQ r s t ≤ 0 := not_lt.mp hq
+    intro h; linarith
+
+/-- Cardano, D > 0, cancellation-free variant: the value returned is ALWAYS a root -/
+theorem solveNormalizedCubicStable_real (F : CubicFns α) (r s t : α) (hD : 0 < cubicD r s t)
+    (hs : F.sqrt (cubicD r s t) * F.sqrt (cubicD r s t) = cubicD r s t ∧ 0 ≤ F.sqrt (cubicD r s t))
+    (hcs : (F.copysign1 (cardanoAStable F r s t) = 1 ∨ F.copysign1 (cardanoAStable F r s t) = -1) ∧
+      0 ≤ F.copysign1 (cardanoAStable F r s t) * cardanoAStable F r s t)
+    (hpow : F.pow (F.copysign1 (cardanoAStable F r s t) * cardanoAStable F r s t) (1 / 3) *
+        F.pow (F.copysign1 (cardanoAStable F r s t) * cardanoAStable F r s t) (1 / 3) *
+        F.pow (F.copysign1 (cardanoAStable F r s t) * cardanoAStable F r s t) (1 / 3) =
+      F.copysign1 (cardanoAStable F r s t) * cardanoAStable F r s t) :
+    ∃ x, solveNormalizedCubicStable F r s t = (1, [x]) ∧ x * x * x + r * (x * x) + s * x + t = 0 := by
+  have hA := cardanoAStable_ne_zero F r s t hD hs
+  have hu3 := realRoot_cube F (cardanoAStable F r s t) hcs hpow
+  set u := realRoot F (cardanoAStable F r s t) 3 with hu
+  have hu0 : u ≠ 0 := by
+    intro h; rw [h] at hu3; apply hA; linear_combination -hu3
+  refine ⟨u + -(cubicP r s) / (3 * u) - r / 3, ?_, ?_⟩
+  · unfold solveNormalizedCubicStable
+    rw [if_neg (by simp [hD.ne']), if_pos hD]
+    rfl
+  · have hdep := depressed r s t (u + -(cubicP r s) / (3 * u))
+    have : (u + -(cubicP r s) / (3 * u) - r / 3) * (u + -(cubicP r s) / (3 * u) - r / 3) * (u + -(cubicP r s) / (3 * u) - r / 3) +
+        r * ((u + -(cubicP r s) / (3 * u) - r / 3) * (u + -(cubicP r s) / (3 * u) - r / 3)) +
+        s * (u + -(cubicP r s) / (3 * u) - r / 3) + t = 0 := by
+      rw [hdep]
+      obtain ⟨hs1, hs2⟩ := hs
+      have hDdef : cubicD r s t = cubicP r s / 3 * (cubicP r s / 3) * (cubicP r s / 3) +
+          cubicQ r s t / 2 * (cubicQ r s t / 2) := rfl
+      have hres : cardanoAStable F r s t * cardanoAStable F r s t + cubicQ r s t * cardanoAStable F r s t -
+          cubicP r s / 3 * (cubicP r s / 3) * (cubicP r s / 3) = 0 := by
+        unfold cardanoAStable
+        have hs1' := hs1.trans hDdef
+        split_ifs <;> linear_combination hs1'
+      set q := cubicQ r s t
+      set p := cubicP r s
+      set A := cardanoAStable F r s t
+      have hy : (u + -p / (3 * u)) * (u + -p / (3 * u)) * (u + -p / (3 * u)) + p * (u + -p / (3 * u)) + q
+          = (u * u * u * (u * u * u) + q * (u * u * u) - p / 3 * (p / 3) * (p / 3)) / (u * u * u) := by
+        field_simp; ring
+      rw [hy, hu3, hres, zero_div]
+    linear_combination this
 end
 end ImathVerif.Roots
